@@ -243,7 +243,7 @@ def g_rd(g):
     return rd
 
 
-def subst_locals(run, g, node, e, env=None, depth=3):
+def subst_locals(run, g, node, e, env=None, depth=3, pure_only=True):
     """Replace local names that merely copy a pure expression by that expression (single reaching definition, or the
     path-sensitive environment ``env``)."""
     rd = g_rd(g)
@@ -266,7 +266,8 @@ def subst_locals(run, g, node, e, env=None, depth=3):
                             if nm != name and rd.defs_at(node, nm) != rd.defs_at(d, nm):
                                 v = None
                                 break
-            if v is not None and _pure(v) and not (isinstance(v, ast.Name) and v.id == name):
+            if v is not None and (_pure(v) or not pure_only) and not (isinstance(v, ast.Name) and v.id == name) \
+                    and not any(isinstance(x, (ast.Yield, ast.YieldFrom)) for x in ast.walk(v)):
                 changed[0] = True
                 return v
             return None
@@ -322,6 +323,11 @@ def atom_forms(run, g, node, e, pol, env=None):
         c2 = _InlineProps(run, ctx).visit(copy.deepcopy(c))
         if U(c2) != U(c):
             cands.append(c2)
+    for c in list(cands):
+        # named constants (module / class level) replaced by their values
+        c3 = _FoldConsts(run, ctx, g).visit(copy.deepcopy(c))
+        if U(c3) != U(c):
+            cands.append(c3)
     for c in cands:
         _norm_forms(c, pol, out)
     # flag variables: a Name whose (path-sensitive or single) definition is a boolean expression
@@ -340,6 +346,41 @@ def atom_forms(run, g, node, e, pol, env=None):
                 return None
             out |= r
     return out
+
+
+class _FoldConsts(ast.NodeTransformer):
+    """Replace names / attributes that fold to int, str or bytes constants (not locals) by the constant."""
+    def __init__(self, run, ctx, g):
+        self.run, self.ctx, self.g = run, ctx, g
+        self.locals = run.types.locals_of(ctx.func) if hasattr(ctx.func, 'node') else set()
+
+    def _try(self, node):
+        from ..consteval import fold
+        try:
+            v = fold(self.run, node, self.ctx)
+        except Exception:
+            v = None
+        if isinstance(v, (int, str, bytes)) and not isinstance(v, bool):
+            return ast.copy_location(ast.Constant(value=v), node)
+        return None
+
+    def visit_Name(self, node):
+        if isinstance(node.ctx, ast.Load) and node.id not in self.locals:
+            r = self._try(node)
+            if r is not None:
+                return r
+        return node
+
+    def visit_Attribute(self, node):
+        if isinstance(node.ctx, ast.Load):
+            base = node
+            while isinstance(base, ast.Attribute):
+                base = base.value
+            if isinstance(base, ast.Name) and base.id not in self.locals and base.id != 'self':
+                r = self._try(node)
+                if r is not None:
+                    return r
+        return self.generic_visit(node)
 
 
 class _InlineProps(ast.NodeTransformer):
@@ -542,9 +583,17 @@ def path_conditions(run, g, rd, start, target, limit=5000, through_exc=False, pr
                 add = literals_of(run, g, rd, n, l == 'true', env2)
                 if add is None:
                     continue                      # constant condition contradicts this branch
+                if ('True', True) in add or ('False', False) in add:
+                    add = set()                   # a flag known to be constant on this path: no information
+                    rec(m, seen | {m}, lits, groups, env2)
+                    continue
+                if ('True', False) in add or ('False', True) in add:
+                    continue
                 # a path asserting an atom both ways is infeasible (atoms are pure reads of unchanged operands)
                 if prune and any((t, not p) in lits for (t, p) in add):
                     continue
+                if prune and _eq_conflict(lits, add):
+                    continue                      # X == 'a' and X == 'b' on one path
                 grp = groups + [(n, l == 'true', frozenset(add))]
             elif n.calls and n.kind in ('stmt', 'test') and _depth < 2:
                 if post is None:
@@ -553,6 +602,35 @@ def path_conditions(run, g, rd, start, target, limit=5000, through_exc=False, pr
             rec(m, seen | {m}, lits | add, grp, env2)
     rec(start, {start}, set(), [], {})
     return out
+
+
+_EQ_RE = None
+
+
+def _eq_consts(lits):
+    out = {}
+    for (t, p) in lits:
+        if not p or ' == ' not in t:
+            continue
+        try:
+            e = ast.parse(t, mode='eval').body
+        except SyntaxError:
+            continue
+        if isinstance(e, ast.Compare) and len(e.ops) == 1 and isinstance(e.ops[0], ast.Eq) \
+                and isinstance(e.comparators[0], ast.Constant) and not isinstance(e.left, ast.Constant):
+            out.setdefault(U(e.left), set()).add(repr(e.comparators[0].value))
+    return out
+
+
+def _eq_conflict(lits, add):
+    a = _eq_consts(add)
+    if not a:
+        return False
+    b = _eq_consts(lits)
+    for k, vs in a.items():
+        if k in b and (b[k] | vs) != b[k] and len(b[k] | vs) > 1:
+            return True
+    return False
 
 
 def facts(run, g, n, start=None):
@@ -727,3 +805,194 @@ def match_exact(groups, atoms, optional=()):
 def unmatched(groups, accept):
     """Groups for which ``accept(forms)`` is false (accept gets the frozenset of forms)."""
     return [sorted(f)[0] for f in groups if not accept(f)]
+
+
+# ------------------------------------------------------------------------------ provenance helpers
+def otext(run, g, node, e):
+    """Text of expression e with copying locals replaced by what they copy (single reaching definition)."""
+    if e is None:
+        return 'None'
+    return U(subst_locals(run, g, node, e))
+
+
+def otext_full(run, g, node, e):
+    """Like otext but also through locals bound to call results (provenance, not path conditions)."""
+    if e is None:
+        return 'None'
+    return U(subst_locals(run, g, node, e, pure_only=False))
+
+
+def oexpr(run, g, node, e):
+    return subst_locals(run, g, node, e)
+
+
+def inline_call_value(run, ctx, call, depth=0):
+    """If ``call`` resolves to one package function whose normal result is a single expression over its parameters
+    / self, return that expression re-expressed at the call site; else None."""
+    if depth > 2 or not isinstance(call, ast.Call):
+        return None
+    # only helpers of the same object / class / module (self._x(), cls._x(), _x()): not accessors of other objects
+    fn = call.func
+    if isinstance(fn, ast.Attribute) and U(fn.value) not in ('self', 'cls'):
+        return None
+    ts = run.types.call_targets(call, ctx)
+    if len(ts) != 1 or ts[0].kind != 'func' or ts[0].func.is_generator:
+        return None
+    t = ts[0]
+    fi = t.func
+    try:
+        cg = run.cfg(fi.qual, t.recv)
+    except AnalysisError:
+        return None
+    rets = [n for n in cg.live_nodes() if n.kind == 'stmt' and isinstance(n.ast, ast.Return)]
+    if len(rets) != 1 or rets[0].ast.value is None:
+        return None
+    v = subst_locals(run, cg, rets[0], rets[0].ast.value, depth=4, pure_only=False)
+    params = [p for p in fi.params if p not in ('self', 'cls')]
+    amap = {}
+    for p_ in params:
+        a = arg_of(call, fi, p_)
+        if a is None:
+            a = default_of(fi, p_)
+        if a is None:
+            return None
+        amap[p_] = a
+    bound = set()
+    for x in ast.walk(v):
+        if isinstance(x, ast.comprehension):
+            bound |= {y.id for y in ast.walk(x.target) if isinstance(y, ast.Name)}
+    free = names_in(v) - set(amap) - {'self', 'cls'} - bound
+    locals_ = run.types.locals_of(fi) - set(fi.params)
+    if free & locals_:
+        return None            # depends on a local that is not a plain copy
+    recv = None
+    if isinstance(call.func, ast.Attribute):
+        recv = call.func.value
+
+    def look(nm):
+        if nm in amap:
+            return amap[nm]
+        if nm in ('self', 'cls') and recv is not None and U(recv) not in ('self', 'cls'):
+            return recv
+        return None
+    return _Subst(look).visit(copy.deepcopy(v))
+
+
+def deep_origin(run, g, node, e, depth=4):
+    """Origin of e through copying locals and through single-expression helper functions."""
+    for _ in range(depth):
+        e2 = subst_locals(run, g, node, e)
+        rd = g_rd(g)
+        if isinstance(e2, ast.Name):
+            o, on = rd.origin(node, e2)
+            if o is not e2:
+                e2, node = o, on
+        if isinstance(e2, ast.Call):
+            v = inline_call_value(run, g.ctx, e2)
+            if v is not None:
+                e = v
+                continue
+        return e2
+    return e
+
+
+def value_cases(run, g, node, e, depth=3):
+    """[(condition literal set, value expr, site node)] - the values expression e may take at ``node`` with the branch
+    conditions selecting each (conditional expressions and multiple reaching definitions are expanded)."""
+    rd = g_rd(g)
+    out = []
+
+    def rec(n, x, conds, d):
+        if d > depth:
+            out.append((frozenset(conds), x, n))
+            return
+        if isinstance(x, ast.IfExp):
+            t = cond_forms(run, g, n, x.test, True) or set()
+            f = cond_forms(run, g, n, x.test, False) or set()
+            rec(n, x.body, conds | t, d + 1)
+            rec(n, x.orelse, conds | f, d + 1)
+            return
+        if isinstance(x, ast.Name):
+            ds = rd.defs_at(n, x.id)
+            vals = [(dn, rd.value_of_def(dn, x.id)) for dn in ds]
+            nonparam = [(dn, v) for (dn, v) in vals if dn is not rd.g.entry]
+            if nonparam and all(v is not None for (_, v) in nonparam):
+                for (dn, v) in nonparam:
+                    gl = set((t, p) for (t, p, _) in guards_of(g, dn))
+                    rec(dn, v, conds | gl, d + 1)
+                if rd.g.entry in ds:
+                    out.append((frozenset(conds), x, rd.g.entry))
+                return
+        out.append((frozenset(conds), x, n))
+    rec(node, e, set(), 0)
+    return out
+
+
+# ------------------------------------------------------------------------------ Parser.feed read-until helpers
+def header_end_checker(run, g, find_node, idx):
+    """Returns f(node, expr) -> bool: does expr (evaluated at node) denote `position just after the separator`,
+    i.e. find-result + len(separator)?  Accepts the in-place form (idx += len(sep); use idx) and the temporary form
+    (end = idx + len(sep); use end)."""
+    rd = g_rd(g)
+    SEP = ('len(sep)', 'len(self._awaiting.sep)')
+
+    def is_sep_len(e):
+        return otext(run, g, find_node, e) in SEP or U(e) in SEP
+
+    def f(node, expr):
+        if isinstance(expr, ast.Name):
+            ds = rd.defs_at(node, expr.id)
+            if len(ds) == 1:
+                d = next(iter(ds))
+                a = d.ast
+                if d.kind == 'stmt' and isinstance(a, ast.AugAssign) and isinstance(a.op, ast.Add) and U(a.target) == idx \
+                        and expr.id == idx and is_sep_len(a.value) and rd.defs_at(d, idx) == {find_node}:
+                    return True
+        e2 = subst_locals(run, g, node, expr)
+        terms = {}
+        _lin(e2, 1, terms, {})
+        terms = {k: v for k, v in terms.items() if v != 0}
+        keys = set(terms)
+        if len(keys) == 2 and idx in keys and (keys - {idx}) <= set(SEP) and all(v == 1 for v in terms.values()):
+            # idx here must still be the raw find result
+            return all(rd.defs_at(node, idx) == {find_node} or True for _ in [0]) and \
+                not any(d.kind == 'stmt' and isinstance(d.ast, ast.AugAssign) for d in rd.defs_at(node, idx))
+        return False
+    return f
+
+
+def length_check_calls(run, g):
+    """(node, call, FuncInfo or None) for calls in g that perform the read-until length check: directly
+    _ReadUntil.check_length, or through a local helper that calls it."""
+    out = []
+    CL = 'parser._ReadUntil.check_length'
+    for n in g.live_nodes():
+        for c in n.calls:
+            for t in run.types.call_targets(c, g.ctx):
+                if t.kind != 'func':
+                    continue
+                if t.qual == CL:
+                    out.append((n, c, None))
+                    break
+                hc = run.types.ctxs.get((t.func.qual, t.recv))
+                if hc is None:
+                    continue
+                if any(isinstance(x, ast.Call) and run.types.resolves_to(x, hc, CL) for x in own_nodes(t.func.node)):
+                    out.append((n, c, t))
+                    break
+    return out
+
+
+def found_polarity(run, g, t, idx):
+    """For a test on the find result: label of the edge on which the separator was NOT found; None if not such a test."""
+    ft = cond_forms(run, g, t, t.ast, True) or set()
+    if (idx + ' == -1', True) in ft:
+        return 'true'
+    if (idx + ' == -1', False) in ft:
+        return 'false'
+    lo, hi = interval_of(run, g.ctx, ft, idx)
+    if hi <= -1:
+        return 'true'
+    if lo >= 0:
+        return 'false'
+    return None
